@@ -26,6 +26,8 @@ ASSUMPTIONS = ['multi-character delimiters of the quoted policies contain neithe
 
 SINGLE = [',', ';', '\t', '|', ' ']
 MULTI = ['::', '###', 'ab', '<>']
+# multi-character delimiters that look like the command line's spellings of a tab: for the library they are ordinary text
+TABLIKE = ['TAB', '\\t']
 NONASCII = ['§', '→', '§§']
 
 
@@ -136,7 +138,7 @@ def shard_enum(shard, nshards, tier, seed, scratch):
     failures, seen = [], set()
     maxlen = 4 if tier == 'quick' else 5
     counter = 0
-    for dlm in SINGLE[:4] + [' '] + MULTI:
+    for dlm in SINGLE[:4] + [' '] + MULTI + TABLIKE[1:]:
         for policy in ('quoted', 'quoted_rfc'):
             alpha = ['"', ' ', 'a'] + sorted(set(dlm) - {' '}) + (['\n'] if policy == 'quoted_rfc' else [])
             strings = [''.join(t) for n in range(0, maxlen + 1) for t in itertools.product(alpha, repeat=n)]
@@ -155,7 +157,7 @@ def shard_enum(shard, nshards, tier, seed, scratch):
                         failures.append({'leg': 'enum', 'clause': v.clause, 'detail': v.detail, 'case': {'table': table, 'delim': dlm, 'policy': policy, 'line_sep': '\n', 'encoding': None}})
     # simple policy with multi-character delimiters: only the whole delimiter inside a field is lossy; fields made of
     # delimiter characters (a field ending with the head of the delimiter next to one starting with its tail) are fine
-    for dlm in MULTI + [', ', ':=']:
+    for dlm in MULTI + [', ', ':='] + TABLIKE:
         alpha = ['a'] + sorted(set(dlm))
         strings = [''.join(t) for n in range(0, maxlen) for t in itertools.product(alpha, repeat=n)]
         short = [x for x in strings if len(x) <= 2]
@@ -203,7 +205,7 @@ def shard_enum(shard, nshards, tier, seed, scratch):
 def st_case(draw):
     encoding = draw(st.sampled_from([None, 'utf-8', 'latin-1']))
     policy = draw(st.sampled_from(['simple', 'quoted', 'quoted_rfc', 'whitespace', 'monocolumn']))
-    delims = SINGLE + MULTI + (NONASCII if encoding != 'latin-1' else [])   # the front-end rejects non-ASCII separators with latin-1 by design
+    delims = SINGLE + MULTI + TABLIKE + (NONASCII if encoding != 'latin-1' else [])   # the front-end rejects non-ASCII separators with latin-1 by design
     dlm = draw(st.sampled_from(delims))
     if policy == 'whitespace':
         dlm = ' '
